@@ -10,6 +10,7 @@ Recorded on the real library and judged by TLC:
    build, no foreign exception escapes and -- for programs without recovering constructs -- the outcome is StreamError, never a value;
  * conformance of the error class (stream / other construct error / explicit) at every node against Sem.
 """
+import itertools
 from .. import ast as A, gen, values as V, campaign, tracer, speccode
 from . import common
 
@@ -107,6 +108,29 @@ def run(ctx):
                 for tail in (b"", b"\x01", b"\x81\x00\xff"):
                     camp.parse(prog, con, bytes([b0]) + tail, 0, {}, tag="bits")
                     nt += 1
+            camp.sh.maybe_flush()
+        # recursive formats (LazyBound) and the list adapters (Indexing / Slicing): every short input, and long chains
+        from .. import universes as U
+        for prog, kw, vals in U.recursive_programs() + U.list_adapter_programs():
+            con = campaign.realizable(prog)
+            if con is None:
+                continue
+            for n in range(0, 5 if quick else 6):
+                for t in itertools.product((0, 1, 2, 3), repeat=n):
+                    if n <= 2 or not quick or rng.random() < 0.25:
+                        camp.parse(prog, con, bytes(t), 0, kw, tag="rec")
+                        nt += 1
+            for v in vals:
+                ib, b = camp.build(prog, con, v, b"", kw)
+                if b["res"]["ok"] and prog["k"] == "Rec":
+                    out = bytes(b["res"]["v"]["b"])
+                    for j in range(len(out)):
+                        ip, p = camp.parse(prog, con, out[:j], 0, kw, tag="trunc")
+                        camp.sh.session("C06.prefix", [ib, ip])
+            if prog["k"] == "Rec":
+                for unit in (b"\x01", b"\x02\x01"):
+                    camp.parse(prog, con, unit * 30, 0, kw, tag="rec-long")
+                    camp.parse(prog, con, unit * 30 + b"\x00\x00\x00", 0, kw, tag="rec-long")
             camp.sh.maybe_flush()
         # spec -> code: every input of the sessions TLC explores on the model's universe (design level: theorems Closed / Prefix of MC_CAM),
         # and every strict prefix of the encodings the specification built
